@@ -227,7 +227,8 @@ def run(ctx):
                         okm = at[1] == ('fn', conv) and src[0] == 'call' and src[1] == 'core::slice::chunks_exact' and q.const_val(src[2][1]) == width
                         desc.append('%s over chunks_exact(%s)' % (show(at[1]), show(src[2][1]) if src[0] == 'call' else '?'))
                         if okm:
-                            ok = any(x[0] == 'agg' and x[2] == variant for r_ in rets for x in walk(r_))
+                            # .. and the arm wraps them in its own variant (returned at once, or bound to a local that is returned after the match)
+                            ok = any(x[0] == 'agg' and x[2] == variant for r_ in rets for x in walk(r_)) or any(a[2] == variant for a in aggs)
                     if not maps:
                         # second spelling: for chunk in bytes.chunks_exact(w) { pixels.push(conv(chunk)?); }  Ok(Variant(pixels))
                         from terms import payload as _payload
